@@ -42,7 +42,9 @@ void pbt_property(Ctx &c) {
         std::vector<int> inorder; for (int p = 0; p < P; p++) inorder.push_back(p);
         pool.stds.push_back(g.full_random(inorder));
         if (vm::is_16(sc.type) || P == 1) pool.stds.push_back(g.full_random(inorder));
-        if (P >= 2) pool.stds.push_back(g.dbl(0, 1, rnd_disk(a, 0.3L, 1.0L), rnd_disk(a, 0.3L, 1.0L), true));
+        // two reflects entered as a matrix with explicit VNACAL_ZERO off the diagonal (a leakage sample that
+        // depends on the zero handle being recognised whatever was looked up before)
+        if (P >= 2) pool.stds.push_back(g.dbl(0, 1, rnd_disk(a, 0.3L, 1.0L), rnd_disk(a, 0.3L, 1.0L), true, 1));
         // keep at most 8 (drop reflects of the last port first)
         while (pool.stds.size() > 8) pool.stds.erase(pool.stds.begin() + (d * 3 - 1 < (int)pool.stds.size() ? d * 3 - 1 : 0)), d = std::max(1, d);
         for (auto &st : pool.stds) if (c.exhaustive) { st.abbrev_rows = st.abbrev_cols = false; }
